@@ -172,7 +172,9 @@ where
         Ok(Self {
             reader,
             max_lit: header.max_var_index * 2 + 1,
-            code: (header.input_count + 1) * 2,
+            // With `max_var_index` at its limit the code following the last definition does not fit
+            // into a `usize`; it is never used, so wrapping is fine here and below.
+            code: (header.input_count + 1).wrapping_mul(2),
             header,
             _lit_builder: std::marker::PhantomData,
         })
@@ -368,7 +370,7 @@ where
 
             token::required_newline(&mut self.parser.reader)?;
         }
-        self.parser.code += 2;
+        self.parser.code = self.parser.code.wrapping_add(2);
         Ok(Some(OrderedLatch {
             next_state,
             initialization,
@@ -645,7 +647,7 @@ where
             "first input code",
         )?;
 
-        self.parser.code += 2;
+        self.parser.code = self.parser.code.wrapping_add(2);
         Ok(Some(OrderedAndGate {
             inputs: [L::from_code(input_code_0), L::from_code(input_code_1)],
         }))
@@ -840,7 +842,8 @@ where
             header.fairness_constraint_count,
         ];
 
-        self.code = (header.input_count + 1) * 2;
+        // may wrap when `max_var_index` is at its limit, see `Parser::new`
+        self.code = header.input_count.wrapping_add(1).wrapping_mul(2);
 
         let mut fields = fields.as_slice();
 
@@ -878,7 +881,7 @@ where
                 self.writer.write_all_defer_err(b"\n");
             }
         }
-        self.code += 2;
+        self.code = self.code.wrapping_add(2);
     }
 
     pub fn write_count(&mut self, count: usize) {
@@ -898,7 +901,7 @@ where
 
         self.write_binary_uint(delta_0);
         self.write_binary_uint(delta_1);
-        self.code += 2;
+        self.code = self.code.wrapping_add(2);
     }
 
     fn write_binary_uint(&mut self, mut code: usize) {
